@@ -180,6 +180,6 @@ META = {
     "technique": "who-may-write over field events of `reserved`; sibling agreement of the normalised overlap scans; pairing/ordering via dominators; guard dominance; comparator key sequence ends with the object identity",
     "level": "Static decision that `reserved` changes only in add/remove (by the scanned contribution) and in resize/setAlignment (to the packed total), that add and remove run the identical overlap scan so a release "
              "subtracts exactly what the reservation added, that set, ring and counter are updated together and in the right order, that resize rejects sizes below the reserved amount before any effect, "
-             "and that size only ever takes aligned amounts. Covers every history's bookkeeping step; tests check a few totals.",
+             "that size only ever takes aligned amounts, and (shared with C03) that the sweeps from which resize / setAlignment recompute `reserved` agree and never move a block end backwards. Covers every history's bookkeeping step; tests check a few totals.",
     "note": "Does not decide the identity reserved == |union of aligned ranges| (arithmetic over runtime ranges). An outside dynamic probe (DESIGN 10.9, probes/P03) shows the identity FAILS for partially overlapping reservations: add/remove subtract the intersection with a neighbour instead of the uncovered remainder (both identically, which is why the sibling rule C04-R2 is satisfied); `reserved` drifts and can underflow. No rule here reports that.",
 }
